@@ -58,11 +58,12 @@ def run_demo(demo, tree):
 
 
 def confirm_one(args):
-    prop, n, src = args
+    prop, n, src = args[:3]
+    offset = args[3] if len(args) > 3 else 0
     patch = os.path.join(src, prop, f"patch{n}.diff")
     demo = os.path.join(src, prop, f"demo{n}.py")
     note = os.path.join(src, prop, f"note{n}.txt")
-    res = {"id": f"{prop}-{n}", "property": prop}
+    res = {"id": f"{prop}-{n + offset}", "property": prop}
     if not (os.path.exists(patch) and os.path.exists(demo)):
         res["status"] = "missing"
         return res
@@ -94,14 +95,14 @@ def confirm_one(args):
     return res
 
 
-def confirm(src):
+def confirm(src, offset=0, only=None):
     jobs = []
     for prop in sorted(os.listdir(src)):
-        if not os.path.isdir(os.path.join(src, prop)) or not prop.startswith("C"):
+        if not os.path.isdir(os.path.join(src, prop)) or not prop.startswith("C") or (only and prop not in only):
             continue
         for n in (1, 2, 3, 4):
             if os.path.exists(os.path.join(src, prop, f"patch{n}.diff")):
-                jobs.append((prop, n, src))
+                jobs.append((prop, n, src, offset))
     with cf.ThreadPoolExecutor(8) as ex:
         for r in ex.map(confirm_one, jobs):
             print(json.dumps({k: v for k, v in r.items() if k != "demo_patched_output"}))
@@ -140,7 +141,11 @@ def run(ids, all_checks=False, tier="quick", examples=None):
 
 if __name__ == "__main__":
     if sys.argv[1] == "confirm":
-        confirm(sys.argv[2])
+        # confirm <src-dir> [--offset K] [Cxx ...]
+        a = sys.argv[3:]
+        off = int(a[a.index("--offset") + 1]) if "--offset" in a else 0
+        only = [x for x in a if x.startswith("C")]
+        confirm(sys.argv[2], off, only or None)
     else:
         args = sys.argv[2:]
         allc = "--all-checks" in args
